@@ -23,8 +23,8 @@ def plan_for(prop: str, tier: str) -> Optional[Dict[str, Any]]:
         return {
             "rule": E1_RULE,
             "batches": [
-                {"engine": "e1_txn", "label": "txn", "n": 4000 if q else 400000, "timeout": 120.0},
-                {"engine": "e1_txn", "label": "txn-nofault", "n": 1000 if q else 60000, "kwargs": {"no_faults": True}, "timeout": 120.0},
+                {"engine": "e1_txn", "label": "txn", "n": 30000 if q else 600000, "timeout": 120.0},
+                {"engine": "e1_txn", "label": "txn-nofault", "n": 8000 if q else 100000, "kwargs": {"no_faults": True}, "timeout": 120.0},
             ],
             "probes": [
                 "drop.self_overlap", "drop.ignored_line", "drop.duplicate", "drop.overlap_with_precedence",
@@ -60,9 +60,9 @@ def _e2_plan(prop, tier):
     return {
         "rule": E2_RULE,
         "batches": [
-            {"engine": "e2_history", "label": "sweep", "n": 192, "indexed": True, "kwargs": {"sweep": True}, "timeout": 900.0},
-            {"engine": "e2_history", "label": "hist", "n": 260 if q else 20000, "timeout": 600.0},
-            {"engine": "e2_history", "label": "hist-faults", "n": 120 if q else 10000, "kwargs": {"faults": True}, "timeout": 600.0},
+            {"engine": "e2_history", "label": "sweep", "n": 192, "indexed": True, "kwargs": {"sweep": True, "light": q}, "timeout": 900.0},
+            {"engine": "e2_history", "label": "hist", "n": 200 if q else 20000, "timeout": 600.0},
+            {"engine": "e2_history", "label": "hist-faults", "n": 100 if q else 10000, "kwargs": {"faults": True}, "timeout": 600.0},
             {"engine": "e2_history", "label": "hist-generated", "n": 80 if q else 5000, "kwargs": {"generated": True}, "timeout": 600.0},
         ],
         "probes": ["parse.hits", "template.hits", "group.hits", "judged_op_hit_entry_touched_before", "fault.abort_fired", "op.LAZY_STEP"],
@@ -241,8 +241,8 @@ def _c08_plan(prop, tier):
             "was changed by the formatter."
         ),
         "batches": [
-            {"engine": "e3_pool", "label": "pool-preserve", "n": 72 if q else 6000, "kwargs": {"profile": "preserve", "schedules": 2}, "timeout": 900.0},
-            {"engine": "e5_optout", "label": "preserve-within-file", "n": 600 if q else 40000, "kwargs": {"kind": "preserve"}, "timeout": 300.0},
+            {"engine": "e3_pool", "label": "pool-preserve", "n": 180 if q else 6000, "kwargs": {"profile": "preserve", "schedules": 2}, "timeout": 900.0},
+            {"engine": "e5_optout", "label": "preserve-within-file", "n": 1500 if q else 40000, "kwargs": {"kind": "preserve"}, "timeout": 300.0},
         ],
         "probes": ["preserve.referenced_definitions_checked", "preserve.clients_imported", "preserve.kind.method", "preserve.kind.variable", "preserve.definitions_checked"],
         "assumptions": [
@@ -269,7 +269,7 @@ def _c18_plan(prop, tier):
             "module) or a multi-worker schedule."
         ),
         "batches": [
-            {"engine": "e3_pool", "label": "pool-imports", "n": 90 if q else 8000, "kwargs": {"profile": "imports", "schedules": 2}, "timeout": 900.0},
+            {"engine": "e3_pool", "label": "pool-imports", "n": 280 if q else 8000, "kwargs": {"profile": "imports", "schedules": 2}, "timeout": 900.0},
         ],
         "probes": ["imports.clients_checked", "imports.clients_changed", "imports.import_statements_changed"],
         "assumptions": [
